@@ -113,6 +113,23 @@ CLAIMED = {
         engine='sqlvc',
         design_ref='7/C07, 2.3',
     ),
+    'C01': dict(
+        text='Layer 1 (trigger contract): for all OLD/NEW rows and databases the effective jobs_after_update trigger adds exactly g_X(NEW) - g_X(OLD) to each of the 13 counters X, at the user key '
+        'and at exactly the ancestor-group keys, with inserted value == duplicate-branch increment (additivity); g_X are the invariant summands written from the property text. '
+        'Layer 2 (closed world): no statement assigns the immutable job columns and no Python statement updates jobs. Bulk operations (cancel_job_group, commit_batch_update, _create_jobs staging) are listed undecided.',
+        note=COMMON_NOTE + 'Assumed: each procedure/trigger invocation is atomic (serialisable isolation); MySQL NULL/boolean semantics as encoded in vc/sqlvc.py; integer column widths sufficient; token-sharded tables are read through SUM over token (meta-lemma L1); SQL cannot be executed in this sandbox so counter-models are rows (VIOLATION ... no-failing-input-found). ',
+        technique='trigger contract (delta obligations against spec summands) on the real SQL text, sqlvc -> z3',
+        engine='sqlvc',
+        design_ref='7/C01 layers 1-2',
+    ),
+    'C02': dict(
+        text='attempts_after_update and attempt_resources_after_insert verified for all rows: each of the four aggregate tables receives exactly quantity x (billed(NEW) - billed(OLD)) (resp. quantity x billed) '
+        'at the key derived from the attempt, for every resource row / ancestor group and nothing else, additively; add_attempt_resources duplicate branch changes nothing; compaction statements share the full key and re-insert the selected sum at token 0.',
+        note=COMMON_NOTE + 'Assumed: each procedure/trigger invocation is atomic (serialisable isolation); MySQL NULL/boolean semantics as encoded in vc/sqlvc.py; integer column widths sufficient; token-sharded tables are read through SUM over token (meta-lemma L1); SQL cannot be executed in this sandbox so counter-models are rows (VIOLATION ... no-failing-input-found). ' + 'Per-day table: invariant stated on the sum over dates. Cost arithmetic (floats) not covered.',
+        technique='trigger contracts (delta obligations) on the real SQL text + parsed embedded SQL obligations, sqlvc -> z3',
+        engine='sqlvc',
+        design_ref='7/C02',
+    ),
 }
 
 NOT_YET = 'not yet brought within the verifier\'s reach in this build (planned in DESIGN.md section 7); no claim is made'
